@@ -7,6 +7,9 @@ from props.asm_common import family_cases
 
 PID = "C14"
 LEAN_TARGETS = ["EtkVerif.Props.C14"]
+PANIC_FILES = ["etk-asm/src/asm.rs", "etk-asm/src/ops.rs", "etk-asm/src/ops/expression.rs", "etk-asm/src/ops/macros.rs",
+               "etk-asm/src/ops/imm.rs", "etk-asm/src/ingest.rs", "etk-asm/src/parse/mod.rs", "etk-asm/src/parse/expression.rs",
+               "etk-asm/src/parse/macros.rs", "etk-asm/src/parse/args.rs"]
 RULE = ("four streams, every request under catch_unwind in a child process with a 10 s wall-clock limit: (1) grammar-valid programs "
         "of all generator families with injected faults (division by zero, negative / oversized operands, forward out-of-range "
         "references, recursive and mis-applied macros, unknown names); (2) near-valid texts: token deletion, duplication, swap, "
